@@ -321,10 +321,11 @@ def element_table_check(desc, o, slot) -> str | None:
     if not m:
         return "GetElementAbund not found"
     body = m.group(1)
+    if any(n not in POOL for n in slot):
+        return None        # (bundled networks: a species whose INTENDED composition the pool does not define; not judged here)
     byslot = {}
     for n, s in slot.items():
-        if n in POOL:
-            byslot.setdefault(s, n)
+        byslot.setdefault(s, n)
     for mm in re.finditer(r"if\s*\(\s*elemidx\s*==\s*IDX_ELEM_(\w+)\s*\)\s*\{\s*return(.*?);\s*\}", body, re.S):
         el, expr = mm.group(1), mm.group(2)
         got = {}
